@@ -98,7 +98,8 @@ type csvRecordsWriter struct {
 }
 
 func (w *csvRecordsWriter) Write(record []string) error {
-	w.records = append(w.records, record)
+	// the record is retained: copy it, the reader may reuse its slice (csv.Reader.ReuseRecord)
+	w.records = append(w.records, append(make([]string, 0, len(record)), record...))
 
 	return nil
 }
